@@ -76,9 +76,16 @@ def render_class(plan: ClassPlan, plans: Dict[str, ClassPlan], rng) -> str:
     if plan.flavour in ("dataclass", "frozen"):
         lines.append("@dataclasses.dataclass" + ("(frozen=True)" if plan.flavour == "frozen" else ""))
     bases = plan.base or ("icontract.DBC" if plan.dbc else "")
+    if plan.flavour == "namedtuple":
+        bases = "typing.NamedTuple"
     lines.append("class {}{}:".format(plan.name, "({})".format(bases) if bases else ""))
     body = []
     n = plan.name
+    if plan.flavour == "namedtuple":
+        body.append("a: int = 1")
+        body.append("pval: int = 0")
+    if plan.flavour == "own-new" and plan.base is None:
+        body += ["def __new__(cls, *args, **kwargs):", "    HUB.log('new-body', {!r})".format(n), "    return super().__new__(cls)"]
     if plan.flavour == "slots":
         body.append("__slots__ = ('a', 'b', 'pval', 'store') if {} else ()".format(plan.base is None))
     if plan.flavour in ("dataclass", "frozen"):
@@ -194,6 +201,8 @@ def make_program(rng, ids: gen.Ids, depth: int, dbc: bool, flavour: str) -> Tupl
             chosen = [c for c in chosen if c not in ("__eq__", "__repr__", "__setattr__")]
         if plan.flavour == "slots":
             chosen = [c for c in chosen if c not in ("__getattr__",)]
+        if plan.flavour == "namedtuple":
+            chosen = [c for c in chosen if c not in ("__setattr__", "__getattr__", "__eq__", "__len__", "prop", "__getattribute__")] or ["pub"]
         for name in chosen:
             kind = {"prop": "prop", "cm": "class", "sm": "static"}.get(name, "method")
             plan.members[name] = kind
@@ -220,7 +229,7 @@ def make_program(rng, ids: gen.Ids, depth: int, dbc: bool, flavour: str) -> Tupl
     return "".join(src), plans, order
 
 
-HEADER = "import dataclasses\nimport icontract\n\n"
+HEADER = "import dataclasses\nimport typing\nimport icontract\n\n"
 
 
 class Oracle:
@@ -314,7 +323,7 @@ def operations(oracle: Oracle, cls: str) -> List[Dict[str, Any]]:
             ops.append({"op": "call", "name": name, "owner": owner, "kind": kind})
         else:
             ops.append({"op": "call", "name": name, "owner": owner, "kind": "method"})
-    if flavour not in ("frozen",):
+    if flavour not in ("frozen", "namedtuple"):
         ops.append({"op": "setattr", "name": "a" if flavour != "own-new" else "a"})
     return ops
 
@@ -560,7 +569,7 @@ def run_program(w, src: str, plans: Dict[str, ClassPlan], order: List[str], shap
 def run(w) -> None:
     rng = w.rng
     n = 12000 if w.tier == "thorough" else 1200
-    flavours = ["plain", "plain", "plain", "slots", "dataclass", "frozen", "own-new"]
+    flavours = ["plain", "plain", "plain", "slots", "dataclass", "frozen", "own-new", "namedtuple"]
     for i in range(n):
         if i % w.nshards != w.shard:
             continue
@@ -568,8 +577,8 @@ def run(w) -> None:
         depth = rng.choice((1, 2, 2, 3))
         dbc = rng.random() < 0.8
         flavour = rng.choice(flavours)
-        if flavour == "own-new":
-            flavour = "plain"
+        if flavour == "namedtuple":
+            dbc = False
         if not dbc or flavour == "frozen":
             # subclasses of invariant-carrying classes that are not built on DBC are documented as undefined behaviour;
             # subclasses of frozen dataclasses cannot assign in their constructors
